@@ -393,6 +393,95 @@ def append_shift(R, ctx):
     R.require(rid, "floor:cases", n >= 20, "", "%d insertions evaluated" % n)
 
 
+def moved_comments(R, ctx, rid="C04.moved-comments"):
+    """Comments of a removed statement keep their relative lines on the token that inherits them."""
+    from .. import peval, astmodel
+    from ..peval import Enum, Struct, some
+    lib = ctx.lib
+    TOK, TRIV, POS, KIND = "nodes::token::Token", "nodes::token::Trivia", "nodes::token::Position", "nodes::token::TriviaKind"
+    R.rule(rid, "Block::remove_statement (how every rule deletes a statement), evaluated from its typed tree on a block whose removed statement "
+                "carries 1..4 comments on increasing lines (as leading trivia of its first token, as trailing trivia of its last token, or "
+                "split between the two), followed by another statement, by a last statement or by nothing: on the token that inherits them the "
+                "comments appear in their order and the line breaks written between two consecutive ones equal the difference of their lines -- "
+                "more would push every following token below its line (the generator can only add lines), fewer would join comments")
+    fn = lib.fn("nodes::block::Block::remove_statement")
+    B = astmodel.Builder(lib)
+    dot = [k for k in lib.adts if k.endswith("do_statement::DoTokens")]
+    if not R.require(rid, "anchor", fn is not None and thir.body_of(fn) is not None and not B.missing and len(dot) == 1 and all(k in lib.adts for k in (TOK, TRIV, POS, KIND)),
+                     "", "Block::remove_statement / token types"):
+        return
+
+    def pos(content, line):
+        return Enum(POS, "LineNumber", {"content": content, "line_number": line})
+
+    def comment(line):
+        return [Struct(TRIV, {"position": pos("--c%d" % line, line), "kind": Enum(KIND, "Comment")}),
+                Struct(TRIV, {"position": pos("\n", line), "kind": Enum(KIND, "Whitespace")})]
+
+    def token(content, line, leading=(), trailing=()):
+        return Struct(TOK, {"position": pos(content, line), "leading_trivia": list(leading), "trailing_trivia": list(trailing)})
+
+    def do(line, leading=(), trailing=()):
+        st = B.do(B.block())
+        st.fields["0"].fields["tokens"] = some(Struct(dot[0], {"do": token("do", line, leading), "end": token("end", line, (), trailing)}))
+        return st
+    line_sets = [(2,), (2, 3), (2, 4), (2, 4, 9), (1, 2, 3, 4), (3, 5, 6, 10), (2, 3, 7), (1, 5, 6)]
+    bad, n = [], 0
+    for lines in line_sets:
+        for split in range(len(lines) + 1):            # the first `split` comments lead the statement, the others trail it
+            for follower in ("statement", "last", "none"):
+                lead = [t for l in lines[:split] for t in comment(l)]
+                trail = [t for l in lines[split:] for t in comment(l)]
+                first = do(lines[-1] + 1 if split else lines[0] - 1 if lines[0] > 1 else 1, lead, trail)
+                if follower == "statement":
+                    blk = B.block([first, do(lines[-1] + 3)])
+                elif follower == "last":
+                    ls = B.brk()
+                    ls.fields["0"] = some(token("break", lines[-1] + 3))
+                    blk = B.block([first], ls)
+                else:
+                    blk = B.block([first])
+                pe = peval.PEval(lib, ctx.an, fuel=4000000, max_depth=60)
+                try:
+                    pe.call_fn(fn, [blk, 0])
+                except peval.OutOfFuel:
+                    pe.unknown_reasons.append("no termination")
+                n += 1
+                label = "comments on lines %s (%d leading), followed by %s" % (list(lines), split, follower)
+                if pe.unknown_reasons:
+                    bad.append((label, "not established %s" % pe.unknown_reasons[:2]))
+                    continue
+                try:
+                    if follower == "statement":
+                        heir = blk.fields["statements"][0].fields["0"].fields["tokens"].fields["0"].fields["do"]
+                    elif follower == "last":
+                        heir = blk.fields["last_statement"].fields["0"].fields["0"].fields["0"]
+                    else:
+                        heir = blk.fields["tokens"].fields["0"].fields["final_token"].fields["0"]
+                    seq = heir.fields["leading_trivia"]
+                except (KeyError, AttributeError):
+                    bad.append((label, "the inheriting token was not found"))
+                    continue
+                got, breaks = [], 0
+                gaps = []
+                for t in seq:
+                    c = t.fields["position"].fields.get("content")
+                    if t.fields["kind"].variant == "Comment":
+                        if got:
+                            gaps.append(breaks)
+                        got.append(t.fields["position"].fields.get("line_number"))
+                        breaks = 0
+                    elif isinstance(c, str):
+                        breaks += c.count("\n")
+                want = [b - a for a, b in zip(lines, lines[1:])]
+                if got != list(lines):
+                    bad.append((label, "comments inherited: %s" % got))
+                elif gaps != want:
+                    bad.append((label, "line breaks between consecutive comments %s, their lines differ by %s" % (gaps, want)))
+    R.ob(rid, "remove_statement|relative-lines-kept", not bad, ctx.where(fn), "%d layouts" % n if not bad else "%s: %s (%d layouts differ)" % (bad[0][0], bad[0][1], len(bad)))
+    R.require(rid, "floor", n >= 60, ctx.where(fn), "%d layouts evaluated" % n)
+
+
 def run(R, ctx):
     R.explanation = (
         "Static rules on the line-keeping mechanism: coverage of shift_token_line over every token slot of the AST type graph, "
@@ -407,4 +496,5 @@ def run(R, ctx):
     bundle_insert(R, ctx)
     lines_eval(R, ctx)
     append_shift(R, ctx)
+    moved_comments(R, ctx)
     line_totals(R, ctx)
